@@ -8,6 +8,7 @@ evaluate; anything else raises Unknown and the rule reports the obligation as in
 """
 from __future__ import annotations
 
+import keyword as _keyword
 import math
 from typing import Any, Dict
 
@@ -23,14 +24,16 @@ _PURE = {
     "float": float, "int": int, "str": str, "abs": abs, "bool": bool, "len": len, "round": round, "min": min, "max": max, "divmod": divmod,
     "math.isnan": math.isnan, "math.isinf": math.isinf, "math.isfinite": math.isfinite, "math.copysign": math.copysign, "math.floor": math.floor,
     "math.ceil": math.ceil, "math.trunc": math.trunc, "math.fabs": math.fabs,
+    "keyword.iskeyword": _keyword.iskeyword, "keyword.issoftkeyword": getattr(_keyword, "issoftkeyword", lambda s_: False), "iskeyword": _keyword.iskeyword,
     "isnan": math.isnan, "isinf": math.isinf, "isfinite": math.isfinite, "copysign": math.copysign,
 }
 _STR_METHODS = {"startswith", "endswith", "strip", "lstrip", "rstrip", "partition", "rpartition", "split", "rsplit", "ljust", "rjust", "zfill", "lower", "upper", "replace",
-                "removeprefix", "removesuffix", "isdigit", "find", "index", "count", "join", "format"}
+                "removeprefix", "removesuffix", "isdigit", "find", "index", "count", "join", "format", "isidentifier", "isalpha", "isalnum", "isupper", "islower",
+                "capitalize", "title", "casefold", "swapcase"}
 _SET_METHODS = {"intersection", "union", "difference", "issubset", "issuperset", "isdisjoint", "symmetric_difference", "copy"}
 _RE_PURE = {"re.split", "re.findall"}
 _TYPES = {"float": float, "int": int, "str": str, "bool": bool, "bytes": bytes}
-_ATTRS = {"math.inf": math.inf, "math.nan": math.nan, "math.pi": math.pi}
+_ATTRS = {"math.inf": math.inf, "math.nan": math.nan, "math.pi": math.pi, "keyword.kwlist": tuple(_keyword.kwlist), "keyword.softkwlist": tuple(getattr(_keyword, "softkwlist", ()))}
 
 
 def ev(t: Sym, env: Dict[Any, Any]) -> Any:
